@@ -30,7 +30,8 @@ def poolpass (args : List String) : String :=
     match mc.toNat?, mk.toNat?, optAll ((commaList cs).map parseConn), optAll ((commaList rs).map parseReq), nx.toNat? with
     | some mc, some mk, some cs, some rs, some nx =>
       let cfg : Cfg := { maxConn := mc, maxKeepalive := mk, newAvail := fun _ => na = "1",
-                         countIdleOnly := Gen.poolCountsIdleOnly, protectAssigned := Gen.poolProtectsAssigned }
+                         countIdleOnly := Gen.poolCountsIdleOnly, protectAssigned := Gen.poolProtectsAssigned,
+                         reclaimAbandoned := Gen.poolReclaimsAbandoned }
       let r := pass cfg { conns := cs, reqs := rs, closing := [], nextId := nx }
       let showR (q : Req) := s!"{q.id}:{match q.conn with | some c => toString c | none => "-"}"
       s!"conns={joinWith "," (r.conns.map (fun c => toString c.id))} closing={joinWith "," (r.closing.map (fun c => toString c.1.id))} reqs={joinWith "," (r.reqs.map showR)} next={r.nextId}"
